@@ -6,7 +6,7 @@ from gvsim.sim import Raised, Sim
 
 PROP = 'C10'
 TIERS = {'quick': {'runs': 2400, 'wall': 100}, 'thorough': {'runs': 60000, 'wall': 1500}}
-REACH = ['locked_matching_key', 'locked_wrong_key', 'locked_no_key', 'actuate_box', 'actuate_off_grid', 'caller_deepcopy_then_inplace_steps', 'knob:long_strip', 'knob:grid_built_with_from_shape']  # probes / faults that must fire in every batch (reach gaps are reported in the evidence)
+REACH = ['locked_matching_key', 'locked_wrong_key', 'locked_no_key', 'actuate_box', 'actuate_off_grid', 'caller_deepcopy_then_inplace_steps', 'knob:long_strip', 'knob:grid_built_with_from_shape', 'knob:door_status_assigned_after_construction']  # probes / faults that must fire in every batch (reach gaps are reported in the evidence)
 RULE = ('one run = one client (random composition with actuate_door / actuate_box biased in, worlds rich in doors of '
         'every status and colour, keys of every colour, boxes; or a shipped key-door configuration with goto-key / '
         'goto-door policies) under a seeded op list; distinct = executed-trace digest; non-trivial = >=10 ops and at '
